@@ -109,15 +109,14 @@ fn stamp_value(src_meta: &std::fs::Metadata) -> Option<String> {
     // v2: sidecars store low-cardinality string columns DICTIONARY-encoded
     // (see build_sidecar) — the version prefix retires every v1 sidecar so
     // mixed formats can never be served.
+    // v3: the stamp is the source file's full identity (length, mtime to the
+    // nanosecond, inode, ctime) instead of length + mtime in whole seconds: a
+    // rewrite of equal length within the same second, or with the mtime
+    // preserved, kept serving the previous content's sidecar.
+    src_meta.modified().ok()?;
     Some(format!(
-        "v2:{}:{}",
-        src_meta.len(),
-        src_meta
-            .modified()
-            .ok()?
-            .duration_since(std::time::UNIX_EPOCH)
-            .ok()?
-            .as_secs()
+        "v3:{}",
+        crate::storage::metadata_cache::FileStamp::of(src_meta).token()
     ))
 }
 
